@@ -25,14 +25,3 @@ Proof.
     (ERRORPREFIX ++ [114; 195; 169; 97; 100], Some [109], Some (err_data decode_error_name [34; 34])).
   vm_compute. repeat split; try reflexivity; intro H; discriminate H.
 Qed.
-
-(* "_ident": the internal handler name is accepted as request action and answered with the identification reply,
-   although no reply action belongs to it in REQUEST2REPLY and it is not the identification request *)
-Definition E1 : env := {| e_json := fun _ => None; e_line := fun _ => {| lo_h := HOk None []; lo_err := [] |} |}.
-Theorem C07_refuted_ident_alias : exists E line a,
-  request_fields line = Some (a, None) /\ a <> IDENTREQUEST /\ assoc_s a request2reply = None /\
-  fst (answer E 0 line) = OReply [] (IDENTREPLY, None, None).
-Proof.
-  exists E1, ident_alias, ident_alias.
-  vm_compute. repeat split; try reflexivity. intro H; discriminate H.
-Qed.
